@@ -176,6 +176,15 @@ Constructs added for the getters / look-ups of `Engine` and the range of `Variab
 * a tuple of two pure expressions `a, b` is the pair `(a, b) : A × B`; `p[0]` / `p[1]` of a pair are its components; a
   tuple assignment `t1, t2 = p` from a pure pair that mentions neither target is `t1 = p[0]; t2 = p[1]`.
 
+Constructs added for the Python representation (`Representation.repr_float` / `repr_ndarray`, profiles `pyexport.py`):
+
+* `{e!r}` in an f-string is the built-in `repr(e)` (whatever the module itself binds the name `repr` to): it is compiled
+  as the expression `builtins.repr(e)`, which an external of the profile must name (CPython's `repr(float)` is not modelled);
+* profile `genexp_as_list`: a generator expression is translated like the list comprehension with the same parts.  This
+  is right where the generator is consumed completely and at once at the place it is created (the argument of
+  `str.join`, which first makes a list of it); the profile asserts that.  With this entry the element of a comprehension
+  may raise: `[f(y) for y in l]` is `List.mapM` (elements evaluated left to right, the first exception ends it).
+
 Anything outside the subset raises `Untranslatable` - the tie is then reported as broken (never silently skipped).
 """
 from __future__ import annotations
@@ -330,8 +339,13 @@ class Fn:
         self.aux = []             # auxiliary loop definitions (text), in dependency order
         self.nloop = 0
         self.used_ext = []
-        src = textwrap.dedent(inspect.getsource(obj))
-        self.fdef = ast.parse(src).body[0]
+        src = inspect.getsource(obj)
+        try:
+            self.fdef = ast.parse(textwrap.dedent(src)).body[0]
+        except IndentationError:
+            # a method whose body contains a multi-line string literal with lines at column 0 cannot be dedented:
+            # parse it where it stands, inside a block
+            self.fdef = ast.parse("if True:\n" + src).body[0].body[0]
         if not isinstance(self.fdef, ast.FunctionDef):
             raise Untranslatable("not a function definition")
         declared = set(profile.get("locals", {})) | {n for n, _ in profile.get("params", [])}
@@ -467,6 +481,10 @@ class Fn:
         """value of a translation-time constant expression, or raise KeyError"""
         env = dict(self.glob)
         env.update(self.consts)
+        for sub in ast.walk(node):
+            # a part that the profile names by an external (`settings.alias`: the state of a mutable object) is not a constant
+            if isinstance(sub, ast.expr) and any(match_pattern(pat, sub, {}) for pat, *_ in self.ext):
+                raise KeyError("external")
         bound = {n.id for c in ast.walk(node) if isinstance(c, ast.comprehension) for n in ast.walk(c.target) if isinstance(n, ast.Name)}
         names = {n.id for n in ast.walk(node) if isinstance(n, ast.Name)} - bound
         for n in names:
@@ -837,7 +855,7 @@ class Fn:
         if (isinstance(node, ast.Call) and isinstance(node.func, ast.Name) and node.func.id in ("tuple", "list") and len(node.args) == 1
                 and not node.keywords and (isinstance(node.args[0], (ast.GeneratorExp, ast.ListComp)) or self._is_list(node.args[0]))):
             return self.ce(node.args[0])          # the sequence of a list / of a completely consumed generator expression
-        if isinstance(node, ast.ListComp) or (isinstance(node, ast.GeneratorExp) and id(node) in self.genexp_ok):
+        if isinstance(node, ast.ListComp) or (isinstance(node, ast.GeneratorExp) and (id(node) in self.genexp_ok or self.p.get("genexp_as_list"))):
             g = node.generators[0]
             if len(node.generators) != 1 or g.is_async or not isinstance(g.target, ast.Name):
                 raise Untranslatable(f"comprehension shape: {ast.unparse(node)}")
@@ -901,8 +919,19 @@ class Fn:
             parts = []
             for v in node.values:
                 if isinstance(v, ast.FormattedValue):
-                    if v.conversion != -1 or v.format_spec is not None:
+                    if v.conversion not in (-1, 114) or v.format_spec is not None:
                         raise Untranslatable(f"f-string conversion / format: {ast.unparse(node)}")
+                    if v.conversion == 114:
+                        # `{e!r}` is the built-in `repr(e)` whatever the module calls `repr`: it must be named by an external
+                        call = ast.Call(func=ast.Attribute(value=ast.Name(id="builtins", ctx=ast.Load()), attr="repr", ctx=ast.Load()),
+                                        args=[v.value], keywords=[])
+                        e = self.try_external(call)
+                        if e is None:
+                            raise Untranslatable(f"f-string conversion `!r` without an external for `builtins.repr(...)`: {ast.unparse(node)}")
+                        if e.ty != "String" or not e.pure:
+                            raise Untranslatable(f"f-string part of type {e.ty}: {ast.unparse(node)}")
+                        parts.append(e.term)
+                        continue
                     v = v.value
                 e = self.ce(v)
                 if e.ty != "String" or not e.pure:
